@@ -79,46 +79,59 @@ Proof. intros k x l H. unfold remove_tok in H. apply filter_In in H. tauto. Qed.
 (* ---- Part 2: the repaired procedures ------------------------------------------------- *)
 
 (* every listed instance has its tree in the store: TreeNodeInstance.Tree() cannot panic *)
+(* every tree is stored under its own id (treeStorage.Set keys by tree.ID) *)
+Definition keys_ok (s : ostate) : Prop :=
+  forall id t, lookup id (store s) = Some (Have t) -> t_id t = id.
+
 Definition insts_have (s : ostate) : Prop :=
-  forall k, In k (insts s) -> exists t, lookup (tk_tree k) (store s) = Some (Have t).
+  (forall k, In k (insts s) -> exists t, lookup (tk_tree k) (store s) = Some (Have t)) /\ keys_ok s.
+
+(* what a procedure may change: the content of the trees with these ids, and which tokens
+   of the registered protocol it may mark finished *)
+Record perm := mkPerm { p_tree : nat -> Prop; p_fin : token -> Prop }.
 
 (* [ext X m m']: what a procedure may do to the goroutine's state. Stored trees
    are kept; only ids in X may change their content. *)
-Record ext (X : nat -> Prop) (m m' : mst) : Prop := mkExt {
+Record ext (X : perm) (m m' : mst) : Prop := mkExt {
   ext_held : held m' = held m;
   ext_leaked : leaked (os m') = leaked (os m);
   ext_haves : forall id t, lookup id (store (os m)) = Some (Have t) ->
                            exists t', lookup id (store (os m')) = Some (Have t');
-  ext_keeps : forall id t, ~ X id -> lookup id (store (os m)) = Some (Have t) ->
+  ext_keeps : forall id t, ~ p_tree X id -> lookup id (store (os m)) = Some (Have t) ->
                            lookup id (store (os m')) = Some (Have t);
+  ext_fin : forall k, proto_known (tk_proto k) = true -> In k (finished (os m')) ->
+                      In k (finished (os m)) \/ p_fin X k;
   ext_insts : insts_have (os m) -> insts_have (os m');
   ext_disc : disciplined (evs m) = true -> disciplined (evs m') = true;
   ext_evs : forall e, In e (evs m) -> In e (evs m') }.
 
-Definition noX : nat -> Prop := fun _ => False.
+Definition noX : perm := mkPerm (fun _ => False) (fun _ => False).
 
 Lemma ext_refl : forall X m, ext X m m.
 Proof. intros X m. constructor; eauto. Qed.
 
 Lemma ext_trans : forall X a b c, ext X a b -> ext X b c -> ext X a c.
 Proof.
-  intros X a b c [h1 l1 v1 k1 i1 d1 e1] [h2 l2 v2 k2 i2 d2 e2]. constructor.
+  intros X a b c [h1 l1 v1 k1 f1 i1 d1 e1] [h2 l2 v2 k2 f2 i2 d2 e2]. constructor.
   - congruence.
   - congruence.
   - intros id t H. destruct (v1 _ _ H) as (t' & H'). eauto.
   - intros id t Hx H. eauto.
+  - intros k Hp H. destruct (f2 k Hp H) as [H'|H']; auto.
   - auto.
   - auto.
   - auto.
 Qed.
 
-Lemma ext_weaken : forall (X : nat -> Prop) m m', ext noX m m' -> ext X m m'.
+Lemma ext_weaken : forall (X : perm) m m', ext noX m m' -> ext X m m'.
 Proof.
-  intros X m m' [h l v k i d e]. constructor; auto.
+  intros X m m' [h l v k f i d e]. constructor; auto.
+  - intros id t _ H. apply k; [intros []|exact H].
+  - intros k0 Hp H. destruct (f k0 Hp H) as [H'|[]]. left. exact H'.
 Qed.
 
 (* a command that returns, as seen from a state with nothing leaked *)
-Definition returns {A} (X : nat -> Prop) (c : M A) (m : mst) (Q : A -> mst -> Prop) : Prop :=
+Definition returns {A} (X : perm) (c : M A) (m : mst) (Q : A -> mst -> Prop) : Prop :=
   exists a m', c m = Ret a m' /\ ext X m m' /\ Q a m'.
 
 Definition clean (m : mst) : Prop := leaked (os m) = [].
@@ -151,16 +164,16 @@ Proof.
 Qed.
 
 (* a store method whose function keeps stored trees, instances and [leaked] *)
-Definition store_fun_ok (X : nat -> Prop) (s s' : ostate) : Prop :=
-  leaked s' = leaked s /\ insts s' = insts s /\
+Definition store_fun_ok (X : perm) (s s' : ostate) : Prop :=
+  leaked s' = leaked s /\ insts s' = insts s /\ finished s' = finished s /\ (keys_ok s -> keys_ok s') /\
   (forall id t, lookup id (store s) = Some (Have t) -> exists t', lookup id (store s') = Some (Have t')) /\
-  (forall id t, ~ X id -> lookup id (store s) = Some (Have t) -> lookup id (store s') = Some (Have t)).
+  (forall id t, ~ p_tree X id -> lookup id (store s) = Some (Have t) -> lookup id (store s') = Some (Have t)).
 
 Lemma with_store_returns : forall A X (f : ostate -> (A * ostate) + crash) m a s',
   clean m -> mem_lk LStore (held m) = false -> f (os m) = inl (a, s') -> store_fun_ok X (os m) s' ->
   returns X (with_store f) m (fun r m' => r = a /\ os m' = s').
 Proof.
-  intros A X f m a s' C Hn Ef (Hl & Hi & Hv & Hk).
+  intros A X f m a s' C Hn Ef (Hl & Hi & Hf & Hky & Hv & Hk).
   exists a, (mkM s' (held m) (EAccess TStore (LStore :: held m) :: evs m)).
   split; [apply with_store_eq; assumption|]. split; [|split; reflexivity].
   constructor; cbn [os held evs].
@@ -168,7 +181,8 @@ Proof.
   - exact Hl.
   - exact Hv.
   - exact Hk.
-  - intros IH k Hk'. rewrite Hi in Hk'. destruct (IH k Hk') as (t & Ht).
+  - intros k _ H. left. rewrite Hf in H. exact H.
+  - intros (IH & IK). split; [|apply Hky, IK]. intros k Hk'. rewrite Hi in Hk'. destruct (IH k Hk') as (t & Ht).
     destruct (Hv _ _ Ht) as (t' & Ht'). eauto.
   - intros D. cbn [disciplined forallb access_ok owner mem_lk existsb]. rewrite lk_eqb_refl. exact D.
   - intros e He. right. exact He.
@@ -180,11 +194,12 @@ Proof. intros X s. repeat split; eauto. Qed.
 Lemma sfo_removal : forall X s v, store_fun_ok X s (set_removal s v).
 Proof. intros X s v. repeat split; cbn; eauto. Qed.
 
-Lemma sfo_update_nohave : forall X s id e,
+Lemma sfo_update_nohave : forall X s id a,
   (forall t, lookup id (store s) <> Some (Have t)) ->
-  store_fun_ok X s (set_store s (update id e (store s))).
+  store_fun_ok X s (set_store s (update id (Req a) (store s))).
 Proof.
-  intros X s id e Hno. repeat split; cbn [set_store leaked insts store].
+  intros X s id a Hno. repeat split; cbn [set_store leaked insts finished store].
+  - intros K j t Hj. rewrite lookup_update in Hj. destruct (id =? j); [discriminate|]. apply K, Hj.
   - intros j t Hj. rewrite lookup_update. destruct (id =? j) eqn:E.
     + apply Nat.eqb_eq in E; subst j. exfalso. eapply Hno, Hj.
     + eauto.
@@ -197,7 +212,8 @@ Lemma sfo_delete_nohave : forall X s id,
   (forall t, lookup id (store s) <> Some (Have t)) ->
   store_fun_ok X s (set_store s (delete id (store s))).
 Proof.
-  intros X s id Hno. repeat split; cbn [set_store leaked insts store].
+  intros X s id Hno. repeat split; cbn [set_store leaked insts finished store].
+  - intros K j t Hj. rewrite lookup_delete in Hj. destruct (id =? j); [discriminate|]. apply K, Hj.
   - intros j t Hj. rewrite lookup_delete. destruct (id =? j) eqn:E.
     + apply Nat.eqb_eq in E; subst j. exfalso. eapply Hno, Hj.
     + eauto.
@@ -206,18 +222,24 @@ Proof.
     + exact Hj.
 Qed.
 
-Lemma sfo_put_tree : forall (X : nat -> Prop) s t,
-  (X (t_id t) \/ forall t0, lookup (t_id t) (store s) <> Some (Have t0)) ->
+(* Set: a tree nobody has, a tree a service may replace, or the very tree that is stored *)
+Lemma sfo_put_tree : forall (X : perm) s t,
+  (p_tree X (t_id t) \/ (forall t0, lookup (t_id t) (store s) <> Some (Have t0)) \/
+   lookup (t_id t) (store s) = Some (Have t)) ->
   store_fun_ok X s (put_tree t s).
 Proof.
-  intros X s t Hx. unfold put_tree. repeat split; cbn [set_store set_removal leaked insts store].
+  intros X s t Hx. unfold put_tree. repeat split; cbn [set_store set_removal leaked insts finished store].
+  - intros K j t0 Hj. rewrite lookup_update in Hj. destruct (t_id t =? j) eqn:E.
+    + inversion Hj; subst t0. apply Nat.eqb_eq, E.
+    + apply K, Hj.
   - intros j t0 Hj. rewrite lookup_update. destruct (t_id t =? j) eqn:E; eauto.
   - intros j t0 Hnx Hj. rewrite lookup_update. destruct (t_id t =? j) eqn:E; [|exact Hj].
-    apply Nat.eqb_eq in E; subst j. destruct Hx as [Hx|Hx]; [contradiction|]. exfalso. eapply Hx, Hj.
+    apply Nat.eqb_eq in E; subst j. destruct Hx as [Hx|[Hx|Hx]]; [contradiction| |congruence].
+    exfalso. eapply Hx, Hj.
 Qed.
 
 Section Repaired.
-Variable X : nat -> Prop.
+Variable X : perm.
 
 Ltac store_op :=
   match goal with
@@ -446,7 +468,7 @@ Qed.
 (* ---- procedures (they do not depend on the fix flags) ---------------------------------- *)
 
 Section Procs.
-Variable X : nat -> Prop.
+Variable X : perm.
 
 Ltac hf := let a := fresh in let m := fresh in let H := fresh in
            intros a m H; cbn [os held evs]; tauto.
@@ -640,7 +662,7 @@ Proof.
 Qed.
 
 Section Fixed71.
-Variable X : nat -> Prop.
+Variable X : perm.
 Variable fx : fixes.
 Hypothesis H71 : f71 fx = true.
 
@@ -762,7 +784,7 @@ Qed.
 End Fixed71.
 
 Section Fixed.
-Variable X : nat -> Prop.
+Variable X : perm.
 (* the procedures for any variant that has the repairs F26 and F72; F71 and the crash /
    leak repairs F05 F06 F07 F08 F70 may be missing: the input classes of the latter are
    hypotheses *)
@@ -951,7 +973,7 @@ Lemma register_absent_returns : forall t m,
 Proof.
   intros t m C Hn Hi Hno. unfold register_tree.
   eapply bind_returns.
-  { unfold st_set. eapply with_store_returns; [exact C|exact Hn|reflexivity|apply sfo_put_tree; right; exact Hno]. }
+  { unfold st_set. eapply with_store_returns; [exact C|exact Hn|reflexivity|apply sfo_put_tree; right; left; exact Hno]. }
   intros [] m1 X1 (_ & Ho1).
   assert (Hl1 : lookup (t_id t) (store (os m1)) = Some (Have t))
     by (rewrite Ho1; unfold put_tree; cbn [set_store store]; rewrite lookup_update, Nat.eqb_refl; reflexivity).
